@@ -302,7 +302,8 @@ def run(ctx: core.Ctx) -> None:
     variants = [0, 3] if ctx.quick else [0, 1, 2, 3, 4, 5, 6]   # 3: int64 time grids; 2, 6: float32
     for kind, depth in (("single", depth_s), ("ideal", depth_i)):
         behs = export_behaviours(ctx, kind, depth)
-        replay_histories(ctx, kind, behs, variants, OWN_CLAUSES)
+        # 7, 8: the frac-face pressure held as a 0-d / 1-element array (what an interpolator hands back)
+        replay_histories(ctx, kind, behs, variants + ([7, 8] if kind == "ideal" or not ctx.quick else []), OWN_CLAUSES)
     if not ctx.quick:
         # deeper single-phase histories: random behaviours of depth 6 from TLC's simulation mode
         behs = export_sampled(ctx, "single", 6, 1000)
